@@ -74,7 +74,7 @@ def run(ctx: Ctx) -> dict:
     nonspace = [a for a in alpha if a not in gen.SPACES]
     ops = []
     rows = [r for r in table if gen.row_classes(r) is not None]
-    n_texts = 1200 if ctx.quick else 40000
+    n_texts = 1200 if ctx.quick else 150000
     for i in range(n_texts):
         kind = "iban" if i % 3 else "bic"
         if kind == "iban":
